@@ -1,14 +1,15 @@
 #!/bin/bash
 # regression over all stored seeds: each patch against the check of its own property; prints one line per seed
-cd /verif
+cd "$(dirname "$0")/.."
+if [ -n "${VP_RUN_REPO:-}" ]; then export VERIF_REPO=$VP_RUN_REPO; echo "using repo snapshot $VERIF_REPO"; python3 check.py --setup 2>&1 | tail -1; fi
 for d in seeded/${SEEDALL_FILTER:-}*/; do
   name=$(basename $d)
   prop=$(python3 -c "import json;print(json.load(open('$d/meta.json')).get('property','?').split(',')[0])")
   [ -f $d/patch.diff ] || continue
-  out=$(tools/seedtest.sh /verif/$d/patch.diff $prop 2>&1)
+  out=$(tools/seedtest.sh $PWD/$d/patch.diff $prop 2>&1)
   v=$(echo "$out" | grep -c "^VIOLATION")
   nf=$(echo "$out" | grep "^VIOLATION" | grep -c "no-failing-input-found")
   t=$(echo "$out" | grep -o "done in [0-9.]*s" | head -1)
   echo "$name $prop violations=$v unproved_only=$([ $v -gt 0 ] && [ $v -eq $nf ] && echo yes || echo no) $t"
 done
-git -C /repo status --short | head -3
+git -C ${VERIF_REPO:-/repo} status --short 2>/dev/null | head -3
